@@ -344,6 +344,17 @@ int sim_pthread_once(pthread_once_t *o, void (*fn)(void)) {
   return 0;
 }
 
+// other lock flavours a correct change might use: all behave like the simulated mutex
+int sim_pthread_rwlock_rdlock(void *l) { return sim_pthread_mutex_lock((pthread_mutex_t *)l); }
+int sim_pthread_rwlock_wrlock(void *l) { return sim_pthread_mutex_lock((pthread_mutex_t *)l); }
+int sim_pthread_rwlock_unlock(void *l) { return sim_pthread_mutex_unlock((pthread_mutex_t *)l); }
+int sim_pthread_spin_lock(void *l) { return sim_pthread_mutex_lock((pthread_mutex_t *)l); }
+int sim_pthread_spin_unlock(void *l) { return sim_pthread_mutex_unlock((pthread_mutex_t *)l); }
+int sim_mtx_lock(void *l) { sim_pthread_mutex_lock((pthread_mutex_t *)l); return 0; /* thrd_success */ }
+int sim_mtx_trylock(void *l) { return sim_pthread_mutex_trylock((pthread_mutex_t *)l) ? 1 /* thrd_busy */ : 0; }
+int sim_mtx_unlock(void *l) { sim_pthread_mutex_unlock((pthread_mutex_t *)l); return 0; }
+void sim_call_once(void *flag, void (*fn)(void)) { sim_pthread_once((pthread_once_t *)flag, fn); }
+
 // C11 / __atomic operations: never racy themselves; acquire+release on the location
 #define ATOMIC_FOR(T, N) \
   T __tsan_atomic##N##_load(const volatile T *a, int) { if (g_active) { acquire(g_cur, sync_for((const void *)a)); tick(g_cur); } return __atomic_load_n(a, __ATOMIC_SEQ_CST); } \
